@@ -119,13 +119,22 @@ SSend(node, pid, hash, amt, chs, fixed, handled, res) ==
 
 (* ---- an update_add_htlc leaves `node` (retransmissions after a reconnection repeat the key). *)
 (* A payment that already reported its outcome, or that a restarted node forgot, gets no new HTLC. *)
+(* The wire does not say which payment an HTLC belongs to: it is a part of the payment the payer last used *)
+(* the hash with -- or, when a part of an earlier payment id of the same hash still waits inside the payer   *)
+(* on that very channel (behind a monitor write / in the holding cell: an add may leave long after its send  *)
+(* call returned), possibly that part.  The run is accepted if some attribution satisfies every guard.       *)
 SAdd(node, chan, id, hash, amt) ==
   LET k == <<chan, node, id>>
       mine == hash \in DOMAIN pidOf /\ pidOf[hash] \in Pids /\ pay[pidOf[hash]].node = node
+      live(p) == pay[p].term = "none" /\ ~pay[p].dead
+      waiting == IF mine THEN {p \in Pids \ {pidOf[hash]} : pay[p].node = node /\ pay[p].hash = hash /\ live(p)
+                                                             /\ pay[p].fixed /\ HeldOn(p, chan)}
+                 ELSE {}
   IN /\ IF k \in DOMAIN ht THEN ht' = ht
-        ELSE /\ mine => (pay[pidOf[hash]].term = "none" /\ ~pay[pidOf[hash]].dead)
-             /\ ht' = Put(ht, k, [hash |-> hash, pid |-> IF mine THEN pidOf[hash] ELSE 0,
-                                   gen |-> IF mine THEN pay[pidOf[hash]].gen ELSE 0, st |-> "flight", amt |-> amt])
+        ELSE \E o \in (IF mine THEN {pidOf[hash]} ELSE {0}) \cup waiting :
+             /\ o # 0 => live(o)
+             /\ ht' = Put(ht, k, [hash |-> hash, pid |-> o,
+                                   gen |-> IF o # 0 THEN pay[o].gen ELSE 0, st |-> "flight", amt |-> amt])
      /\ UNCHANGED <<pay, pidOf, released, failSeen, snap, spent, feeKnown, initBal, gotAdd, stale, wip>>
 
 (* ---- an update_add_htlc is handed to `node`: it is not a pure payer. *)
@@ -202,10 +211,13 @@ SEvPathFailed(node, pid, hash, blamed, initial, path) ==
   \* owed, this event stems from that use, not from the parts of the present one)
   \* a failure that no update_fail_htlc on the path explains, on a first hop where a part of the payment still waits
   \* inside the payer: the payer failed that part itself (it found it unsendable when it freed the holding cell)
-  /\ pay' = IF initial /\ pay[pid].owed = 0 THEN [pay EXCEPT ![pid].refd = Append(@, IF Len(path) > 0 THEN path[1] ELSE 0)]
-            ELSE IF ~initial /\ pay[pid].owed = 0 /\ K = {} /\ Len(path) > 0 /\ pay[pid].fixed /\ HeldOn(pid, path[1])
-            THEN [pay EXCEPT ![pid].intf = Append(@, path[1])]
-            ELSE pay
+  \* (while such an event of an earlier use is owed the wire cannot tell which use this event belongs to: either reading
+  \* is followed -- the id was used again before the events of the earlier use were handled)
+  /\ \E present \in (IF pay[pid].owed = 0 THEN {TRUE} ELSE {TRUE, FALSE}) :
+       pay' = IF initial /\ present THEN [pay EXCEPT ![pid].refd = Append(@, IF Len(path) > 0 THEN path[1] ELSE 0)]
+              ELSE IF ~initial /\ present /\ K = {} /\ Len(path) > 0 /\ pay[pid].fixed /\ HeldOn(pid, path[1])
+              THEN [pay EXCEPT ![pid].intf = Append(@, path[1])]
+              ELSE pay
   /\ failSeen' = failSeen \ {<<hash, path[j]>> : j \in 1..Len(path)}
   /\ UNCHANGED <<ht, pidOf, released, snap, spent, feeKnown, initBal, gotAdd, stale, wip>>
 
@@ -268,10 +280,13 @@ SPersistComplete(node, chan, id) ==
 
 (* ---- list_recent_payments right after a restart.  ForgottenIsDead: a payment that is no   *)
 (* longer listed has no HTLC in flight and (guards of SAdd / SEvSent) never completes.       *)
+(* A part of it that still waited inside the payer (holding cell: no monitor write records   *)
+(* it, so a snapshot older than the send is not stale) went with the crash: nothing is held  *)
+(* back any more, the id is free again ("safe to retry").                                    *)
 SRecentAfterRestart(node, listed) ==
   /\ \A p \in Pids : (pay[p].node = node /\ p \notin listed) => ~InFlight(p)
   /\ pay' = [p \in Pids |-> IF pay[p].node = node /\ p \notin listed /\ pay[p].term # "sent"
-                            THEN [pay[p] EXCEPT !.dead = TRUE] ELSE pay[p]]
+                            THEN [pay[p] EXCEPT !.dead = TRUE, !.fixed = FALSE] ELSE pay[p]]
   /\ UNCHANGED <<ht, pidOf, released, failSeen, snap, spent, feeKnown, initBal, gotAdd, stale, wip>>
 
 (* ---- quiescence: every link is up and empty, every event has been handled, every monitor   *)
